@@ -474,6 +474,87 @@ func (fr *Frame) execLoop(l *Loop, entry []*Edge) []*Edge {
 		t := fr.evalClause(cl, st0, fr.entryOr(st0), nil)
 		vc.oblige(st0, "inv-init", fmt.Sprintf("loop%d/%s", l.Ord, cl.Label), fr.contract.clauseProps(cl), t, l.Head.Instrs[0].Pos())
 	}
+	// automatic invariant candidates (checked like written ones): a slice that every iteration of a range loop extends
+	// by a fixed number of elements has length  entry length + (iterations done) * k
+	type autoInv struct {
+		phi      *ssa.Phi
+		entryLen *Term
+		k        int64
+	}
+	var autos []autoInv
+	var riPhi *ssa.Phi
+	for _, ins := range l.Head.Instrs {
+		if phi, ok := ins.(*ssa.Phi); ok && phi.Comment == "rangeindex" {
+			riPhi = phi
+		}
+	}
+	if riPhi != nil {
+		for _, ins := range l.Head.Instrs {
+			phi, ok := ins.(*ssa.Phi)
+			if !ok {
+				break
+			}
+			if _, isSlice := phi.Type().Underlying().(*types.Slice); !isSlice {
+				continue
+			}
+			k := int64(-1)
+			good := true
+			for i, pred := range l.Head.Preds {
+				if !l.Blocks[pred] {
+					continue
+				}
+				call, ok := phi.Edges[i].(*ssa.Call)
+				if !ok {
+					good = false
+					break
+				}
+				b, isB := call.Call.Value.(*ssa.Builtin)
+				if !isB || b.Name() != "append" || call.Call.Args[0] != ssa.Value(phi) {
+					good = false
+					break
+				}
+				sl, ok := call.Call.Args[1].(*ssa.Slice)
+				if !ok {
+					good = false
+					break
+				}
+				al, ok := sl.X.(*ssa.Alloc)
+				if !ok || sl.Low != nil || sl.High != nil {
+					good = false
+					break
+				}
+				at, ok := al.Type().(*types.Pointer).Elem().Underlying().(*types.Array)
+				if !ok || (k >= 0 && k != at.Len()) {
+					good = false
+					break
+				}
+				k = at.Len()
+			}
+			if good && k > 0 {
+				if sv, ok := fr.env[phi].(SliceV); ok {
+					autos = append(autos, autoInv{phi, sv.Len, k})
+				}
+			}
+		}
+	}
+	// range loops: the index stays below the length the loop was entered with (go/ssa: index = -1, then +1 while index+1 < len)
+	var rangeLen ssa.Value
+	if riPhi != nil {
+		for _, ins := range l.Head.Instrs {
+			if iff, ok := ins.(*ssa.If); ok {
+				if b, ok := iff.Cond.(*ssa.BinOp); ok && b.Op == token.LSS {
+					if _, have := fr.env[b.Y]; have && !l.Blocks[blockOf(b.Y)] {
+						rangeLen = b.Y
+					}
+				}
+			}
+		}
+	}
+	autoTerm := func(a autoInv) *Term {
+		cur := fr.env[a.phi].(SliceV)
+		ri := fr.env[riPhi].(*Term)
+		return Eq(cur.Len, Add(a.entryLen, Mul(Add(ri, IntLit(1)), IntLit(a.k))))
+	}
 	// havoc: head phis, locals and heaps assigned in the loop
 	hst := st0.clone()
 	hst.Reach = st0.Reach
@@ -502,6 +583,15 @@ func (fr *Frame) execLoop(l *Loop, entry []*Edge) []*Edge {
 	for _, cl := range invs {
 		vc.addFact(hst, fr.evalClause(cl, hst, fr.entryOr(hst), nil))
 	}
+	for _, a := range autos {
+		vc.addFact(hst, autoTerm(a))
+	}
+	if rangeLen != nil {
+		if lt, ok := fr.env[rangeLen].(*Term); ok {
+			// holds on entry (index -1, lengths are not negative) and is kept by the loop's own guard
+			vc.addFact(hst, Or(Lt(fr.env[riPhi].(*Term), lt), Lt(lt, IntLit(0))))
+		}
+	}
 	// built-in facts for range loops: index phi >= -1
 	res := fr.execRegion(l, nil, hst)
 	for _, e := range res.back {
@@ -517,6 +607,9 @@ func (fr *Frame) execLoop(l *Loop, entry []*Edge) []*Edge {
 		for _, cl := range invs {
 			t := fr.evalClause(cl, e.St, fr.entryOr(e.St), nil)
 			vc.oblige(e.St, "inv-pres", fmt.Sprintf("loop%d/%s", l.Ord, cl.Label), fr.contract.clauseProps(cl), t, l.Head.Instrs[0].Pos())
+		}
+		for _, a := range autos {
+			vc.oblige(e.St, "inv-pres", fmt.Sprintf("loop%d/auto-append-count:%s", l.Ord, a.phi.Comment), nil, autoTerm(a), l.Head.Instrs[0].Pos())
 		}
 		for k, v := range saved {
 			fr.env[k] = v
@@ -734,6 +827,13 @@ func (fr *Frame) callMayWriteHeap(c ssa.CallInstruction) bool {
 		return fr.vc.prog.mayWrite(f.Fn.(*ssa.Function), map[*ssa.Function]bool{})
 	}
 	return true
+}
+
+func blockOf(v ssa.Value) *ssa.BasicBlock {
+	if ins, ok := v.(ssa.Instruction); ok {
+		return ins.Block()
+	}
+	return nil
 }
 
 // ---------------------------------------------------------------------------------------------
